@@ -3,6 +3,7 @@ package buffer
 import (
 	"encoding/binary"
 	"fmt"
+	"io"
 	"unsafe"
 )
 
@@ -121,7 +122,8 @@ func ReadUint16Slice(r Reader, c []uint16) (n int64, err error) {
 
 	var slice []byte
 
-	size := r.Size()
+	// Only peeks whole words: the trailing bytes of a partial word must stay in the reader.
+	size := r.Size() &^ 1
 	if len(c)<<1 < size {
 		size = len(c) << 1
 	}
@@ -132,6 +134,12 @@ func ReadUint16Slice(r Reader, c []uint16) (n int64, err error) {
 	}
 
 	buffered := len(slice) >> 1
+
+	// Less than one word available although c is not full: the input is truncated
+	// (recursing here would never terminate, e.g. on an exhausted Buffer).
+	if buffered == 0 {
+		return int64(len(slice)), io.ErrUnexpectedEOF
+	}
 
 	// If the slice to write on is equal or smaller than the amount peaked
 	if N := len(c); N <= buffered {
@@ -195,8 +203,8 @@ func ReadUint32Slice(r Reader, c []uint32) (n int64, err error) {
 
 	var slice []byte
 
-	// Avoid EOF
-	size := r.Size()
+	// Avoid EOF. Only peeks whole words: the trailing bytes of a partial word must stay in the reader.
+	size := r.Size() &^ 3
 	if len(c)<<2 < size {
 		size = len(c) << 2
 	}
@@ -207,6 +215,12 @@ func ReadUint32Slice(r Reader, c []uint32) (n int64, err error) {
 	}
 
 	buffered := len(slice) >> 2
+
+	// Less than one word available although c is not full: the input is truncated
+	// (recursing here would never terminate, e.g. on an exhausted Buffer).
+	if buffered == 0 {
+		return int64(len(slice)), io.ErrUnexpectedEOF
+	}
 
 	// If the slice to write on is equal or smaller than the amount peaked
 	if N := len(c); N <= buffered {
@@ -270,8 +284,8 @@ func ReadUint64Slice(r Reader, c []uint64) (n int64, err error) {
 
 	var slice []byte
 
-	// Avoid EOF
-	size := r.Size()
+	// Avoid EOF. Only peeks whole words: the trailing bytes of a partial word must stay in the reader.
+	size := r.Size() &^ 7
 	if len(c)<<3 < size {
 		size = len(c) << 3
 	}
@@ -282,6 +296,12 @@ func ReadUint64Slice(r Reader, c []uint64) (n int64, err error) {
 	}
 
 	buffered := len(slice) >> 3
+
+	// Less than one word available although c is not full: the input is truncated
+	// (recursing here would never terminate, e.g. on an exhausted Buffer).
+	if buffered == 0 {
+		return int64(len(slice)), io.ErrUnexpectedEOF
+	}
 
 	// If the slice to write on is equal or smaller than the amount peaked
 	if N := len(c); N <= buffered {
